@@ -86,8 +86,13 @@ def _satsolve_filein_fileout(F, cmd='minisat', verbose=0):
     except OSError:
         pass
     finally:
-        os.unlink(cnf.name)
-        os.unlink(sat.name)
+        # a failing solver (or its wrapper) may have removed its own
+        # incomplete output file
+        for name in (cnf.name, sat.name):
+            try:
+                os.unlink(name)
+            except FileNotFoundError:
+                pass
 
     # At this point `output` is either the list ["UNSAT"] or a list of
     # the form ["SAT","v1","v2",...,"vn"] where each "vi" is either
